@@ -198,6 +198,31 @@ func suiteC16(c *ctx) {
 		}
 		c.emit(fmt.Sprintf("st.init %s %s %s %s %s %d %s", cfg.tokenOf(d), snapTok(pre, false), o.token(), xs("root"), xs("Init-Passw0rd"), ts, xb(salt)), res+" "+snapTok(post, true))
 		c.emit("law.C16.init_only_on_empty "+id, tf((err == nil) == emptyish && (err != nil || d.Check() == nil) && (err == nil || eqModTmp(pre, post))))
+		// an add for a name that is already taken — by a record, an unsupported or EMPTY file (a stale
+		// reservation), under the same or the OTHER role: refused, nothing changes, never two files
+		if err != nil {
+			var cands []dent
+			for _, e := range ents {
+				if _, _, ok := isValidExt(e.name); ok && !e.dir {
+					cands = append(cands, e)
+				}
+			}
+			if len(cands) > 0 {
+				e := cands[r.Intn(len(cands))]
+				u, wasAdmin, _ := isValidExt(e.name)
+				role := !wasAdmin
+				if r.Intn(3) == 0 {
+					role = wasAdmin
+				}
+				pre2 := snapshot(base)
+				errAdd := d.AddUser(u, "Add-Passw0rd-9x", role)
+				post2 := snapshot(base)
+				bothBefore := userFileExact(pre2, u+".user") && userFileExact(pre2, u+".admin")
+				bothAfter := userFileExact(post2, u+".user") && userFileExact(post2, u+".admin")
+				c.emit(fmt.Sprintf("law.C16.add_on_taken_name_refused_unchanged empty=%s other-role=%s %s", tf(len(e.content) == 0), tf(role != wasAdmin), id),
+					tf(errAdd != nil && eqModTmp(pre2, post2) && (bothBefore || !bothAfter)))
+			}
+		}
 		os.RemoveAll(base)
 	}
 	// histories from a valid store: validity is preserved
@@ -264,3 +289,13 @@ func suiteC16(c *ctx) {
 }
 
 func init() { suites["c16"] = suiteC16 }
+
+// userFileExact: an entry of exactly this name exists in the snapshot.
+func userFileExact(s []sent, name string) bool {
+	for _, e := range s {
+		if e.name == name {
+			return true
+		}
+	}
+	return false
+}
